@@ -42,6 +42,10 @@ type Case struct {
 	// of that field (for a struct-typed field: the whole subtree below it is
 	// addressed through the alias name).
 	Supply map[string]uint64 `json:"supply"`
+	// NoSetSlice (decoder checks only) models ez Params.DisableAutoSetToSlice:
+	// the decoder is wrapped with the alias mangler alone and string sets are
+	// written in the format's native map spelling.
+	NoSetSlice bool `json:"no_set_slice,omitempty"`
 }
 
 // ---- generation ----
@@ -460,17 +464,25 @@ func genCase(src srcKind) func(*rapid.T) Case {
 		g := &supplyGen{t: t, m: m, supply: map[string]uint64{}}
 		g.allowBoth = rapid.Bool().Draw(t, "allow_both")
 		g.fill(m.fields, "")
-		return Case{Shape: s, Supply: g.supply}
+		c := Case{Shape: s, Supply: g.supply}
+		if !src.flatten {
+			c.NoSetSlice = rapid.Bool().Draw(t, "no_set_slice")
+		}
+		return c
 	}
 }
 
 // ---- execution ----
 
 // ezWrap wraps a decoder the way ez.ConfigFileEnvFlagDecoderFactoryParams does
-// with default Params: alias mangler on the dials tag first, then the
-// set<->slice mangler (no tag reformatting unless FileFieldNameEncoder is set).
-func ezWrap(d dials.Decoder) dials.Decoder {
-	return sourcewrap.NewTransformingDecoder(d, transform.NewAliasMangler(common.DialsTagName), &transform.SetSliceMangler{})
+// when no FileFieldNameEncoder is set: alias mangler on the dials tag first,
+// then the set<->slice mangler unless Params.DisableAutoSetToSlice.
+func ezWrap(d dials.Decoder, noSetSlice bool) dials.Decoder {
+	manglers := []transform.Mangler{transform.NewAliasMangler(common.DialsTagName)}
+	if !noSetSlice {
+		manglers = append(manglers, &transform.SetSliceMangler{})
+	}
+	return sourcewrap.NewTransformingDecoder(d, manglers...)
 }
 
 type supplied struct {
@@ -478,7 +490,7 @@ type supplied struct {
 	val reflect.Value
 }
 
-func execute(src srcKind, T, pt reflect.Type, sup []supplied) (val reflect.Value, err error, panicked any) {
+func execute(src srcKind, T, pt reflect.Type, sup []supplied, noSetSlice bool) (val reflect.Value, err error, panicked any) {
 	defer func() {
 		if r := recover(); r != nil {
 			panicked = r
@@ -535,7 +547,7 @@ func execute(src srcKind, T, pt reflect.Type, sup []supplied) (val reflect.Value
 	}
 	root := &docNode{}
 	for _, s := range sup {
-		root.put(s.x.docPath, docValue(s.val, src.name == "toml"))
+		root.put(s.x.docPath, docValue(s.val, src.name == "toml", noSetSlice))
 	}
 	var doc string
 	var dec dials.Decoder
@@ -553,7 +565,7 @@ func execute(src srcKind, T, pt reflect.Type, sup []supplied) (val reflect.Value
 	default:
 		return reflect.Value{}, fmt.Errorf("unknown source %q", src.name), nil
 	}
-	val, err = ezWrap(dec).Decode(strings.NewReader(doc), typ)
+	val, err = ezWrap(dec, noSetSlice).Decode(strings.NewReader(doc), typ)
 	if err != nil {
 		err = fmt.Errorf("%w (document: %s)", err, clip(doc, 600))
 	}
@@ -619,7 +631,7 @@ func runCase(src srcKind) func(Case) vrt.Verdict {
 		ev := m.eval(c.Supply)
 
 		pt := ptrify.Pointerify(T, reflect.New(T).Elem())
-		got, gerr, panicked := execute(src, T, pt, sup)
+		got, gerr, panicked := execute(src, T, pt, sup, c.NoSetSlice)
 
 		describe := func() string {
 			var parts []string
@@ -698,6 +710,9 @@ func runCase(src srcKind) func(Case) vrt.Verdict {
 		}
 		emptyLabels(ev.pats, c.Supply, lab)
 		embedLabels(m, ev.pats, lab)
+		if !src.flatten {
+			lab[fmt.Sprintf("set-slice-mangler:%v", !c.NoSetSlice)] = true
+		}
 		if len(ev.classASupplied) > 0 {
 			lab["generic-alias+source-primary-supplied"] = true
 		}
@@ -771,7 +786,7 @@ func rule(src string) string {
 
 var assumptions = []string{
 	"Value/Decode is called with dials.NewType(ptrify.Pointerify(T, zero T)), as dials.Config does",
-	"decoders are wrapped exactly as ez does with default Params: sourcewrap.NewTransformingDecoder(dec, transform.NewAliasMangler(\"dials\"), &transform.SetSliceMangler{})",
+	"decoders are wrapped exactly as ez does without a FileFieldNameEncoder: sourcewrap.NewTransformingDecoder(dec, transform.NewAliasMangler(\"dials\") [, &transform.SetSliceMangler{} unless DisableAutoSetToSlice, drawn per case]); with the set<->slice mangler a string set is written as a list, without it as a map of empty maps (accepted by all four formats on the unmodified tree)",
 	"the env source is used with Prefix " + envPrefix + " so generated names cannot meet real environment variables; touched variables are restored after every case",
 	"flag sources get explicit FlagSets via NewSetWithArgs (never flag.CommandLine / os.Args) and a zero-valued template",
 	"source-specific tags are generated only on leaf fields that are not below an aliased struct field: their names are absolute, so below an aliased struct both copies would share one name and 'which name was used' is undefined",
